@@ -132,18 +132,20 @@ class Resolver:
         return []
 
     # ---- call graph --------------------------------------------------------------
-    def callees(self, key: FuncKey, include_nested=True) -> Set[FuncKey]:
+    def callees(self, key: FuncKey, include_nested=True, precise=False) -> Set[FuncKey]:
         mod = self.repo[key[0]]
         func = self.func(key)
         out: Set[FuncKey] = set()
         for n in ast.walk(func):
             if isinstance(n, ast.Call):
+                if precise and not _precisely_resolved(n):
+                    continue
                 encl = _enclosing_def(n, func)
                 for k in self.resolve(mod, encl, n):
                     out.add(k)
         return out
 
-    def reachable_from(self, roots: Iterable[FuncKey]) -> Set[FuncKey]:
+    def reachable_from(self, roots: Iterable[FuncKey], precise=False) -> Set[FuncKey]:
         seen: Set[FuncKey] = set()
         stack = list(roots)
         while stack:
@@ -151,7 +153,7 @@ class Resolver:
             if k in seen:
                 continue
             seen.add(k)
-            stack.extend(self.callees(k) - seen)
+            stack.extend(self.callees(k, precise=precise) - seen)
         return seen
 
     def all_functions(self) -> List[FuncKey]:
